@@ -38,7 +38,7 @@ From Coquelicot Require Import Coquelicot.
 From PV Require Import Graph.OpFamily Graph.Tape Graph.Lazy Graph.Backward Graph.TapeLemmas Graph.LazyProofs
   Graph.BackwardProofs Graph.ADProof Tensor.Kernels Tensor.Index Tensor.ProofsBilinear
   Scalar.ScalarBase Gen.ScalarGen Tensor.AdjCore Tensor.GraphInst Tensor.AdjSoftmax Tensor.GraphInstR Tensor.AdjDeriv
-  Tensor.TapeDeriv Tensor.GraphInstREx.
+  Tensor.TapeDeriv Tensor.GraphInstREx Tables.OpSyntax Gen.BwTables Tensor.FamilyNames.
 Import ListNotations.
 Local Open Scope R_scope.
 
@@ -173,6 +173,22 @@ Proof.
            n sn bl ops' e' bl' Hclean Hpsized Hn Hsweep).
 Qed.
 Print Assumptions C01_real_backward_computes_derivative.
+
+(* (4) the family is ALL of the library's operators: the operator classes with a BACKWARD body in
+   operator_impl.cc, as regenerated from the source on every run (Gen/BwTables.v), are exactly the
+   72 names of family_names, and each is modelled by a constructor of real_family (rop_cxx).  A new,
+   removed or renamed BACKWARD body makes C01_real_bw_table_is_family fail. *)
+Theorem C01_real_bw_table_is_family : map f_qual bw_methods = family_names.
+Proof. exact bw_table_is_family_names. Qed.
+Print Assumptions C01_real_bw_table_is_family.
+
+Theorem C01_real_family_names_sound (o : rop) (n : String.string) : In n (rop_cxx o) -> In n family_names.
+Proof. exact (family_names_sound o n). Qed.
+Print Assumptions C01_real_family_names_sound.
+
+Theorem C01_real_bw_table_covered (n : String.string) : In n (map f_qual bw_methods) -> exists o : rop, In n (rop_cxx o).
+Proof. exact (bw_table_covered n). Qed.
+Print Assumptions C01_real_bw_table_covered.
 
 (* Non-vacuity: y = log(exp(p)) * p at p = (1, 2), direction dp = (5, 7), prior gradient (10, 20).
    Every hypothesis of C01_real_backward_computes_derivative holds for this tape; the sweep adds
